@@ -381,6 +381,10 @@ func GenerateArtifacts(backend Database, alias string) (*BuildArtifact, error) {
 			return nil, err
 		}
 
+		if issuerArtifact == nil || issuerArtifact.Certificate == nil {
+			return nil, fmt.Errorf("db: issuer '%v' of '%v' has no certificate to sign with", subjectConfig.Issuer, alias)
+		}
+
 		issuerCtx = cert.IssuerContext{
 			PrivateKey:   issuerArtifact.PrivateKey,
 			PublicKeyRaw: issuerArtifact.Certificate.TBSCertificate.PublicKey.PublicKey.Bytes,
